@@ -17,7 +17,11 @@ import build
 import session
 drivers = [f for f in sorted(os.listdir(os.path.join(HERE, 'drivers'))) if f.endswith('.cpp') and not f.startswith('_')]
 ok = True
-for cfg in ('prod', 'san'):
+from oracle import a64, thumb
+a64.selftest()
+thumb.selftest()
+print('interpreter self-tests ok')
+for cfg in ('prod', 'san', 'p32', 'p64', 'prod-g', 'tsan'):
     try:
         build.build_lib(cfg)
     except build.BuildError as e:
